@@ -127,3 +127,21 @@ add('M28', [('SRC/dsp_blas2.c', "	    for (k = Lstore->nsuper; k >= 0; k--) {\n	
     ['C14'], note='back substitution sweeps supernodes forward (d)')
 add('M28b', [('SRC/zsp_blas2.c', "    else ky =  - (leny - 1) * incy;", "    else ky =  - (lenx - 1) * incy;"), ('SRC/csp_blas2.c', "    else ky =  - (leny - 1) * incy;", "    else ky =  - (lenx - 1) * incy;")], ['C14'],
     note='start of y computed from the length of x (complex)')
+
+# ---------------------------------------------------------------- C07 / C08 / C19 (storage)
+add('M14', x4('SRC/?column_dfs.c', "		mem_error = ?LUMemXpand(jcol, nextl, LSUB, &nzlmax, Glu);\n		if ( mem_error ) return (mem_error);\n		lsub = Glu->lsub;\n	    }\n            if ( kmark",
+              "		mem_error = ?LUMemXpand(jcol, nextl, LSUB, &nzlmax, Glu);\n		if ( mem_error ) return (mem_error);\n	    }\n            if ( kmark"), ['C07'],
+    note='lsub not re-read after LSUB expansion')
+add('M15', x4('SRC/?column_bmod.c', "	lusup = (? *) Glu->lusup;\n	lsub = Glu->lsub;\n    }\n\n    for (isub", "	lusup = (? *) Glu->lusup;\n    }\n\n    for (isub"), ['C07'],
+    note='lsub kept stale after LUSUP expansion (moves in a workspace)')
+add('M16', x4('SRC/?memory.c', "#define StackFull(x)         ( x + Glu->stack.used >= Glu->stack.size )", "#define StackFull(x)         ( x + Glu->stack.top1 >= Glu->stack.size )"), ['C08'],
+    note='fullness test ignores the tail end')
+add('M16b', x4('SRC/?memory.c', "	Glu->stack.top2 -= bytes;\n	buf = (char*) Glu->stack.array + Glu->stack.top2;\n    }\n    \n    Glu->stack.used += bytes;", "	Glu->stack.top2 -= bytes;\n	buf = (char*) Glu->stack.array + Glu->stack.top2;\n	return buf;\n    }\n    \n    Glu->stack.used += bytes;"), ['C08'],
+    note='tail allocations are not counted in used')
+add('M17', x4('SRC/?memory.c', "    	return (?memory_usage(nzlmax, nzumax, nzlumax, Glu->n) + Glu->n);\n    }\n\n    switch", "    	return 0;\n    }\n\n    switch"), ['C08'],
+    note='expansion failure reported as success')
+add('M17b', x4('SRC/?gstrf.c', "	    while ( new_next > nzlumax ) {", "	    if ( new_next > nzlumax ) {"), ['C08', 'C19'], note='single expansion attempt for a whole relaxed supernode')
+add('M39', x4('SRC/?snode_dfs.c', "		if ( nextl >= nzlmax ) {", "		if ( nextl > nzlmax ) {"), ['C19', 'C08'], note='post-check off by one')
+add('M39b', [('SRC/memory.c', "    for (; d_ptr >= dest; --s_ptr, --d_ptr ) *d_ptr = *s_ptr;", "    for (; d_ptr > dest; --s_ptr, --d_ptr ) *d_ptr = *s_ptr;")], ['C07'], note='in-place shift drops byte 0')
+add('M39c', x4('SRC/?memory.c', "		if ( type < LSUB ) {\n		    Glu->lsub = expanders[LSUB].mem =", "		if ( type < UCOL ) {\n		    Glu->lsub = expanders[LSUB].mem ="), ['C07'],
+    note='growing UCOL does not advance lsub')
